@@ -23,7 +23,7 @@ DInit == \E i \in Starts :
            /\ h = i /\ l = i + 1
            /\ fs = StartFS(Log[i].start)
            /\ pr = FreshProc(OpProg(ScenOf(Log[i])))
-           /\ ctl = [phase |-> "run", crashes |-> 0, scen |-> ScenOf(Log[i]), res |-> "", fol |-> FALSE]
+           /\ ctl = [phase |-> "run", crashes |-> 0, scen |-> ScenOf(Log[i]), res |-> "", fol |-> FALSE, faults |-> 0, rt |-> FALSE]
 
 ClsMatch(lc, ec) == lc = ec \/ (lc = "casman" /\ ec = "cas")
 \* objects whose digest the harness does not know (referrer lists written by regclient) are logged as "x..."
